@@ -400,7 +400,7 @@ pub fn evaluate(
                     let fault = r.violations.first().cloned();
                     drop(r);
                     // the hooks' own tables are not part of what is measured
-                    abra_core::verif::reset();
+                    abra_core::verif::release_tables();
                     match fault {
                         Some(v) => Err(v),
                         None => Ok(crate::mem::live()),
@@ -429,7 +429,7 @@ pub fn evaluate(
             });
             let mut one = || -> Result<usize, Violation> {
                 let r = life_history_once(mk, *seed, *ops);
-                abra_core::verif::reset();
+                abra_core::verif::release_tables();
                 match r {
                     Err(e) => Err(mem_violation(
                         "fault:host-panic",
